@@ -28,6 +28,9 @@ ASSUMPTIONS = [
     "float arithmetic on the awkward contents (1e-7, 0.1, 1e22 …) is exact in the model: a formula value that "
     "differs from the implementation's only by IEEE rounding (relative 1e-12) is counted as float-inexact, not as "
     "a divergence; the sign of -0.0 is not modelled",
+    "the inexact-number stream compares the implementation with itself (original object vs loaded object): it says "
+    "nothing about the correctness of the values, only that persistence does not change them or their classes; in "
+    "its numpy variant a numpy float counts as the float it holds",
 ]
 
 CONTENT_POOL = [1e-7, 1e22, -0.0, 0.1, 123456789.125, 'true', 'null', '~', 'yes', '12', '1e3', '=notformula',
@@ -402,7 +405,15 @@ def run(ctx):
         "second stream saves models after evaluating a random subset of the cells in a random order (cell-map key "
         "order differs from the sorted order; unsaved cells read as blank after the load) with histories inside the "
         "saved cells; the extra_data cases compare the key order of a first and a second save of the same object "
-        "and the keys of the loaded extra_data")
+        "and the keys of the loaded extra_data. Source-hash stream: models compiled from an .xlsx FILE; the file is "
+        "left alone / rewritten with other contents / deleted between compile and save and again (or restored) "
+        "between load and re-save: _excel_file_md5_digest, hash_matches and the excel_hash of both documents must "
+        "be the hash recorded at compile time and hash_matches must agree with an independent md5 of the file on "
+        "disk (also replayed on the model). Inexact-number stream (implementation against implementation, no "
+        "model): constants 0.1, 2.5, 1e-7, 1e22, 1/3 ... among text/boolean/blank cells under SUM/AVERAGE/COUNT/"
+        "MAX/MIN and cell arithmetic x yml/json/pkl x histories of 6-10 set_value/evaluate: original vs loaded "
+        "compared after every operation by repr AND exact class of the returned value and of every cell value; "
+        "a variant writes one or two constants as numpy.float64 before the save")
     nwb = ctx.n(70, 800)
     nproc = 0
     batch = []          # correspondence cases (model = coq/Model/Persist.v)
@@ -780,7 +791,7 @@ def hash_stream(ctx, ExcelCompiler, batch):
                                   impl=doc2.get('excel_hash'), expected=h0)
             l2 = ExcelCompiler.from_file(stem + '_again.' + ext)
             if l2._excel_file_md5_digest != h0:
-                ctx.violation(dict(case, leg='loaded from the save of the loaded model'),
+                ctx.violation(dict(case, leg='reloaded (saved by the loaded model)'),
                               "re-saving a loaded model does not keep the source hash",
                               impl=l2._excel_file_md5_digest, expected=h0)
             for name, m in (('original', orig), ('loaded', loaded), ('reloaded (saved by the loaded model)', l2)):
